@@ -10,6 +10,59 @@ COUNTS_QUICK = {"roam": 100, "uniform": 150, "macro": 60, "affine": 40, "pressur
 COUNTS_THOROUGH = {"roam": 2000, "uniform": 3000, "macro": 1500, "affine": 800, "pressure": 200}
 
 
+def unchecked_protocol(res, rng, driver, hv, n):
+    """BCRaw.v in unchecked mode (theorem C10_unchecked_safe) vs runtime::Memory: pre-allocate
+    [-m, m], then raw moves and raw accesses that stay on cells of the region; every accessed cell
+    must test accessible (it is dereferenced without a check) and reads must return the model's values"""
+    mlines, ilines, wants = [], [], []
+    for _ in range(n):
+        r = rng.fork()
+        m = r.choice([0, 1, 2, 5, 17, 100, 3000])
+        pos, ops, iops, want = 0, [], ["a:%d:%d" % (-m, m + 1)], ["-"]
+        for _ in range(r.randint(2, 40)):
+            k = r.below(10)
+            if k < 4:
+                d = r.randint(-m - pos, m - pos)
+                pos += d
+                ops.append("mu:%d" % d); iops.append("m:%d" % d); want.append("-")
+            else:
+                off = r.randint(-m - pos, m - pos)
+                if k < 7:
+                    ops.append("g:%d" % off); iops += ["c:%d" % off, "r:%d" % off]; want += ["c=1", None]
+                else:
+                    v = r.randint(1, 255)
+                    ops.append("s:%d:%d" % (off, v)); iops += ["c:%d" % off, "w:%d:%d" % (off, v)]; want += ["c=1", "-"]
+        mlines.append("rawproto|0|0|%s" % ";".join(["pre:%d:%d" % (-m, m + 1)] + ops))
+        ilines.append("tape|8|%s" % ";".join(iops))
+        wants.append(want)
+    mout = C.run_lines(driver, mlines)
+    iout = C.run_lines(hv, ilines)
+    st = {"histories": n, "mismatches": 0, "oob": 0}
+    rep = 0
+    for ml, il, want, m, r in zip(mlines, ilines, wants, mout, iout):
+        if not m.split(" | ")[-1].startswith("ok"):
+            raise C.CheckFailure("unchecked protocol model failed: %s -> %s" % (ml[:200], m[:200]))
+        vals = [x[2:] for x in m.split(" | ")[0].split() if x.startswith("v=")]
+        vi = 0
+        exp = []
+        for x in want:
+            if x is None:
+                exp.append("r=%s" % vals[vi]); vi += 1
+            else:
+                exp.append(x)
+        got = r.split(" | ")[0].split()
+        if got == exp and r.endswith("facts:ok"):
+            continue
+        oob = any(g == "c=0" and e == "c=1" for g, e in zip(got, exp))
+        st["oob" if oob else "mismatches"] += 1
+        if rep < 3:
+            rep += 1
+            res.violation(("an unchecked access inside the pre-allocated region would leave the tape buffer: %s" if oob else
+                           "BCRaw.v (unchecked mode) and runtime::Memory disagree: %s") % il[:300],
+                          {"case": il, "model_case": ml, "implementation": r[:500], "expected": " ".join(exp)}, no_failing_input=not oob)
+    return st
+
+
 def run(res):
     rng = C.Rng(res.seed * 7919 + 10)
     broken = []
@@ -34,8 +87,31 @@ def run(res):
             c.meta["exc"] = (int(f[2]), int(f[3]))
             if c.meta["margin"] < 200000:
                 H.append(c)
-    stats = {"programs": len(H), "runs": 0, "faults": 0, "trace_diffs": 0}
+    stats = {"programs": len(H), "runs": 0, "faults": 0, "trace_diffs": 0, "reach_checked": 0, "reach_outside": 0}
     rep = 0
+    # hypothesis of theorem C10_unchecked_safe, validated per program and level through the bytecode
+    # model: pointer excursion of the *bytecode* run + declared window inside the pre-allocated region
+    for regs, fuse, who in ((2, 1, "bc"), (11, 0, "jit")):
+        for level in (0, 1, 2, 3):
+            dumps = C.run_lines(hv, ["dumpbc|%d|%d|%d|%d|%s" % (c.w, level, regs, fuse, P.hexs(c.src)) for c in H])
+            idx = [i for i, d in enumerate(dumps) if d.startswith("ok ")]
+            rr = C.run_lines(driver, ["bcreach|%d|%d|%s|%s" % (H[i].w, P.FUEL, dumps[i][3:], H[i].env) for i in idx])
+            for i, r in zip(idx, rr):
+                f = r.split()
+                if f[0] not in ("done", "stopped"):
+                    continue
+                stats["reach_checked"] += 1
+                lo, hi, mn, mx = (int(x) for x in f[1:5])
+                m = H[i].meta["margin"]
+                if lo + mn < -m or hi + mx > m or mn > 0 or mx < 0:
+                    stats["reach_outside"] += 1
+                    if rep < 3:
+                        rep += 1
+                        res.violation("C10 %s bytecode level %d: the bytecode run moves the pointer over [%d,%d] with window [%d,%d], outside the pre-allocated region [-%d,%d] (canonical excursion %s + program length); program %r"
+                                      % (who, level, lo, hi, mn, mx, m, m, H[i].meta["exc"], H[i].src[:200]),
+                                      {"case": "rung|%s|%d|%d|unsafe|%d|3|10000|%s|%s" % (who, H[i].w, level, m, P.hexs(H[i].src), H[i].env),
+                                       "src": H[i].src, "canonical": H[i].canon, "reach": r, "profile": "debug"})
+    stats["protocol"] = unchecked_protocol(res, rng, driver, hv, 400 if res.tier == "quick" else 10000)
     for backend, levels in BACKENDS:
         for level in levels:
             for guard in (2, 3):
@@ -66,7 +142,9 @@ def run(res):
         "samples": [dict(c.to_json(), margin=c.meta["margin"]) for c in H[:: max(1, len(H) // 6)]][:6],
         "stats": stats, "distribution": P.distribution(H), "backends": BACKENDS,
     })
-    res.assumptions += ["first exercise of execute_unsafe anywhere (the suite has none)"]
+    res.coverage["theorems"] = ["C10_unchecked_safe", "C11_cells_in_window"]
+    res.assumptions += ["first exercise of execute_unsafe anywhere (the suite has none)",
+                        "memory protocol: theorem C10_unchecked_safe proves that after make_accessible(-m, m+1) any sequence of unprobed moves and raw accesses that stays on cells of [-m, m] never leaves the buffer and reads the last value written; its hypothesis is validated per program and level (stats.reach_checked): pointer excursion of the bytecode model run plus the declared window (operands are inside it by the certified checker, C11) lies inside the region; the model is tied to runtime::Memory by stats.protocol; event equality with the canonical run is per-program validation (C02/C03)"]
     if broken and not res.violations:
         res.violation("proof side of C10 no longer checks: " + "; ".join(broken)[:1500], {"broken": broken}, no_failing_input=True)
 
